@@ -162,6 +162,28 @@ func c03Ops() []c03Op {
 			stmts: func(c03State, c03Elem) []Stmt {
 				return []Stmt{Assign{Names: []string{"w"}, Vals: []Expr{Call{Fn: "mk"}}}}
 			}},
+		// several slice values created within ONE statement (each literal must be its own object)
+		c03Op{name: "v,w=[c],[a,b] (two literals in one assignment)", ok: always,
+			apply: func(s *c03State) {
+				s.objs = append(s.objs, []int{3}, []int{1, 2})
+				s.v, s.w = len(s.objs)-2, len(s.objs)-1
+			},
+			stmts: func(s c03State, el c03Elem) []Stmt {
+				return []Stmt{Assign{Names: []string{"v", "w"}, Vals: []Expr{SliceLit{Elem: el.t, Elems: []Expr{el.vals[3]}}, SliceLit{Elem: el.t, Elems: []Expr{el.vals[1], el.vals[2]}}}}}
+			}},
+		c03Op{name: "v=pick([a],[b,c]) (two literals as arguments)", ok: always,
+			apply: func(s *c03State) { s.objs = append(s.objs, []int{2, 3, 1}); s.v = len(s.objs) - 1 },
+			stmts: func(s c03State, el c03Elem) []Stmt {
+				return []Stmt{Assign{Names: []string{"v"}, Vals: []Expr{Call{Fn: "pick", Args: []Expr{SliceLit{Elem: el.t, Elems: []Expr{el.vals[1]}}, SliceLit{Elem: el.t, Elems: []Expr{el.vals[2], el.vals[3]}}}}}}}
+			}},
+		// a range loop nested in a range loop over a slice of another length
+		c03Op{name: "nested range v x w", ok: func(s c03State) bool { return len(s.objs[s.v])*len(s.objs[s.w]) <= 40 }, apply: func(*c03State) {},
+			stmts: func(c03State, c03Elem) []Stmt {
+				return []Stmt{ForRange{I: "oi", V: "oe", X: Var{"v"}, Body: []Stmt{
+					ForRange{I: "ii", V: "ie", X: Var{"w"}, Body: []Stmt{Print{Args: []Expr{StrLit{V: "nest"}, Var{"oi"}, Var{"ii"}, Var{"oe"}, Var{"ie"}}}}},
+					Print{Args: []Expr{StrLit{V: "outer"}, Var{"oi"}, Var{"oe"}}}}},
+					ForRange{I: "oi", X: StrLit{V: "xyz"}, Body: []Stmt{ForRange{I: "ii", V: "ie", X: Var{"v"}, Body: []Stmt{Print{Args: []Expr{StrLit{V: "nest2"}, Var{"oi"}, Var{"ii"}, Var{"ie"}}}}}}}}
+			}},
 		// the same operations inside functions that work on the program-level slices
 		c03Op{name: "gcopy() [n=copy(w,v) in a function]", ok: func(s c03State) bool { return len(s.objs[s.w]) <= len(s.objs[s.v]) },
 			apply: func(s *c03State) { s.objs[s.w] = append([]int{}, s.objs[s.v]...) },
@@ -201,6 +223,12 @@ func c03HistoryProg(hist []int, ops []c03Op, el c03Elem) (*Prog, c03State) {
 		FuncDef{Name: "setf", Params: []Param{{"s", sl}, {"i", TInt}, {"e", el.t}}, Body: []Stmt{SliceSet{Name: "s", I: Var{"i"}, Val: Var{"e"}}}},
 		FuncDef{Name: "mk", Rets: []Type{sl}, Body: []Stmt{Define{Names: []string{"m"}, Form: DefShort, Vals: []Expr{SliceLit{Elem: el.t, Elems: []Expr{el.vals[2], el.vals[1]}}}}, Return{Vals: []Expr{Var{"m"}}}}},
 		FuncDef{Name: "same", Params: []Param{{"s", sl}}, Rets: []Type{sl}, Body: []Stmt{Return{Vals: []Expr{Var{"s"}}}}},
+		// pick appends the first element of p to q's object and returns q (p and q must be distinct objects)
+		FuncDef{Name: "pick", Params: []Param{{"p", sl}, {"q", sl}}, Rets: []Type{sl}, Body: []Stmt{
+			Print{Args: []Expr{StrLit{V: "pick"}, Len{X: Var{"p"}}, Len{X: Var{"q"}}}},
+			SliceSet{Name: "q", I: Len{X: Var{"q"}}, Val: Index{X: Var{"p"}, I: lit(0)}},
+			Print{Args: []Expr{StrLit{V: "picked"}, Len{X: Var{"p"}}, Len{X: Var{"q"}}}},
+			Return{Vals: []Expr{Var{"q"}}}}},
 		Define{Names: []string{"v"}, Form: DefShort, Vals: []Expr{SliceLit{Elem: el.t, Elems: []Expr{el.vals[1], el.vals[2]}}}},
 		Define{Names: []string{"w"}, Form: DefShort, Vals: []Expr{SliceLit{Elem: el.t}}},
 		Define{Names: []string{"n"}, Form: DefShort, Vals: []Expr{lit(0)}},
@@ -391,7 +419,9 @@ func c03Sweeps(r *findings.Run, stats *c03Stats, deadline time.Time) {
 	}
 	var progs []*Prog
 	var names []string
-	fr := func(e Expr) Expr { return Binary{Op: "+", L: Binary{Op: "+", L: StrLit{V: "<"}, R: e}, R: StrLit{V: ">"}} }
+	fr := func(e Expr) Expr {
+		return Binary{Op: "+", L: Binary{Op: "+", L: StrLit{V: "<"}, R: e}, R: StrLit{V: ">"}}
+	}
 	for n := 0; n <= L; n++ {
 		s := c03Alphabet[:n]
 		// computed indices: all in-range pairs (a, b) through loop variables
